@@ -49,9 +49,11 @@ def _case(mats, wl_kind, zero=None, same_name=False):
                 wl = tuple(lams)            # any sequence is a vector of wavelengths
             elif str(wl_kind).endswith('l'):
                 wl = list(lams)
-        calc = nsf.neutron_composite_sld(materials, wavelength=wl)
         warr = np.array(ws, dtype=object if E.symbolic else float)
+        snap = cm.Snapshot(materials=materials, weights=warr, **({'wavelengths': wl} if isinstance(wl, np.ndarray) else {}))
+        calc = nsf.neutron_composite_sld(materials, wavelength=wl)
         out = calc(warr, density=rho)
+        snap.check(E, 'calculator')
         E.fact('three_outputs', len(out) == 3)
         # direct: neutron_sld of sum_i w_i * material_i at density rho
         total = formulas.Formula()
